@@ -65,9 +65,10 @@ var propRules = map[string]*PropSpec{
 		Technique:  techOwn,
 	},
 	"C03": {
-		Rules:       []string{"A1.api32", "A1.kernel", "F1", "F11", "G1", "F3.32", "F3.64", "A1.api64", "U6", "EQ1", "IDX1", "F2", "U5", "CUR1", "LOW1", "U11"},
+		Rules:       []string{"A1.api32", "A1.kernel", "F1", "F11", "G1", "F3.32", "F3.64", "A1.api64", "U6", "EQ1", "IDX1", "F2", "U5", "CUR1", "LOW1", "U11", "U12"},
 		Explanation: explBase + " C03: the clause 'queries never modify the bitmap' is decided for every exported read-only function; kind dispatch of the query paths is exhaustive.",
 		Decided: []string{
+			"in the 64-bit bitmap a 64-bit quantity is cut to 32 bits only if it is a widened / shifted / masked 32-bit value or an upper-bound comparison on it dominates the cut (Select's running index against the bucket cardinality)",
 			"end-1 of a caller-supplied unsigned range end is computed only where the end is known to be positive (behind the empty-range exit, a zero test or a clamp)",
 			"Rank asks a chunk (bucket) found by scanning positions about the low half of its argument only where the scan has established that the chunk's key equals the argument's high half",
 			"an iterator glues the key of the current chunk/bucket to what the inner iterator yields only when no reload of the cursor lies between the two reads",
@@ -257,9 +258,10 @@ var propRules = map[string]*PropSpec{
 		Technique:  techMix,
 	},
 	"C17": {
-		Rules:       []string{"A2.64", "A3.64", "F3.64", "F5", "F9", "A1.api64", "A5", "F12", "P6", "P2", "U1", "F10", "EQ1", "R2", "IDX1", "A2.stale", "LEN1", "F5.neg", "R3", "U5", "CUR1", "CUR2", "CUR3", "CUR4", "GAL1", "CACHE1", "CUR5", "SW1", "LOW1", "U11"},
+		Rules:       []string{"A2.64", "A3.64", "F3.64", "F5", "F9", "A1.api64", "A5", "F12", "P6", "P2", "U1", "F10", "EQ1", "R2", "IDX1", "A2.stale", "LEN1", "F5.neg", "R3", "U5", "CUR1", "CUR2", "CUR3", "CUR4", "GAL1", "CACHE1", "CUR5", "SW1", "LOW1", "U11", "U12"},
 		Explanation: explBase + " C17: the 64-bit bitmap's bucket table obeys the same ownership discipline (bucket = container), drops emptied buckets, inserts at the right index and its aggregates return fresh bitmaps.",
 		Decided: []string{
+			"in the 64-bit bitmap a 64-bit quantity is cut to 32 bits only if it is a widened / shifted / masked 32-bit value or an upper-bound comparison on it dominates the cut (Select's running index against the bucket cardinality)",
 			"end-1 of a caller-supplied unsigned range end is computed only where the end is known to be positive (behind the empty-range exit, a zero test or a clamp)",
 			"Rank asks a chunk (bucket) found by scanning positions about the low half of its argument only where the scan has established that the chunk's key equals the argument's high half",
 			"at no call is an argument handed to another parameter than the one it is named after while that parameter exists with the same type (the start/last bounds of the per-range merge kernels, found-set/filter-set)",
